@@ -446,4 +446,360 @@ theorem min_image_1d (L d : Rat) (hL : 0 < L) (h1 : -L < d) (h2 : d < L) (m : In
       push_cast
       nlinarith
 
+/-! ## periodic: index bookkeeping of `repeat_box_coord`, lattice algebra -/
+
+theorem getElem?_flatMap_map {α β γ : Type} (f : α → β → γ) (ps : List β) :
+    ∀ (sh : List α) (t' : Nat) (x : γ),
+      (sh.flatMap fun s => ps.map (f s))[t']? = some x ↔
+        ∃ si t s p, t' = si * ps.length + t ∧ sh[si]? = some s ∧ ps[t]? = some p ∧ x = f s p := by
+  intro sh
+  induction sh with
+  | nil => intro t' x; simp
+  | cons a sh ih =>
+    intro t' x
+    rw [List.flatMap_cons, List.getElem?_append]
+    by_cases hlt : t' < (ps.map (f a)).length
+    · rw [if_pos hlt]
+      have hlt' : t' < ps.length := by simpa using hlt
+      rw [List.getElem?_map]
+      constructor
+      · intro h
+        obtain ⟨p, hp, hx⟩ := Option.map_eq_some_iff.mp h
+        exact ⟨0, t', a, p, by simp, by simp, hp, hx.symm⟩
+      · rintro ⟨si, t, s, p, ht, hs, hp, rfl⟩
+        have htl : t < ps.length := (List.getElem?_eq_some_iff.mp hp).1
+        have hsi : si = 0 := by
+          by_contra hne
+          have : ps.length ≤ si * ps.length := Nat.le_mul_of_pos_left _ (Nat.pos_of_ne_zero hne)
+          omega
+        subst hsi
+        simp at ht hs
+        subst ht; subst hs
+        simp [hp]
+    · rw [if_neg hlt]
+      have hge : ps.length ≤ t' := by simpa using hlt
+      rw [List.length_map, ih]
+      constructor
+      · rintro ⟨si, t, s, p, ht, hs, hp, hx⟩
+        refine ⟨si + 1, t, s, p, ?_, by simpa using hs, hp, hx⟩
+        rw [Nat.succ_mul]; omega
+      · rintro ⟨si, t, s, p, ht, hs, hp, hx⟩
+        have htl : t < ps.length := (List.getElem?_eq_some_iff.mp hp).1
+        cases si with
+        | zero => simp at ht; omega
+        | succ si =>
+          refine ⟨si, t, s, p, ?_, by simpa using hs, hp, hx⟩
+          rw [Nat.succ_mul] at ht; omega
+
+
+/-- the lattice coefficient `floor(x / L)` removed by `move_inside_box` -/
+def fl (L x : Rat) : Int := (x / L).floor
+
+theorem wrap1_eq' (L x : Rat) (hL : 0 < L) : wrap1 L x = x - (fl L x : Int) * L := wrap1_eq L x hL
+
+def boxPos (b : V3) : Prop := 0 < b.x ∧ 0 < b.y ∧ 0 < b.z
+
+/-- The lattice vector that relates an image of the moved-inside atom seen from the moved-inside
+query to the original atom seen from the original query. -/
+def latt (b p q : V3) (s : I3) : I3 :=
+  ⟨s.i - fl b.x p.x + fl b.x q.x, s.j - fl b.y p.y + fl b.y q.y, s.k - fl b.z p.z + fl b.z q.z⟩
+
+theorem sqDist_wrap (b : V3) (hb : boxPos b) (p q : V3) (s : I3) :
+    sqDist (wrapV b q) (shiftV b s (wrapV b p)) = sqDist q (shiftV b (latt b p q s) p) := by
+  obtain ⟨hx, hy, hz⟩ := hb
+  simp only [sqDist, wrapV, shiftV, latt, wrap1_eq' _ _ hx, wrap1_eq' _ _ hy, wrap1_eq' _ _ hz]
+  push_cast
+  ring
+
+theorem mem_shifts (i j k : Int) (hi : i = -1 ∨ i = 0 ∨ i = 1) (hj : j = -1 ∨ j = 0 ∨ j = 1)
+    (hk : k = -1 ∨ k = 0 ∨ k = 1) : (⟨i, j, k⟩ : I3) ∈ shifts := by
+  rcases hi with rfl | rfl | rfl <;> rcases hj with rfl | rfl | rfl <;> rcases hk with rfl | rfl | rfl <;> decide
+
+/-- Some lattice translate of `p` is within `r` of `q`  ⇒  one of the 27 images of the moved-inside
+`p` is within `r` of the moved-inside `q`. -/
+theorem image_of_lattice (b : V3) (hb : boxPos b) (p q : V3) (n : I3) (r2 : Rat)
+    (h : sqDist q (shiftV b n p) ≤ r2) :
+    ∃ s ∈ shifts, sqDist (wrapV b q) (shiftV b s (wrapV b p)) ≤ r2 := by
+  obtain ⟨hx, hy, hz⟩ := hb
+  have rx := wrap1_range b.x p.x hx; have rqx := wrap1_range b.x q.x hx
+  have ry := wrap1_range b.y p.y hy; have rqy := wrap1_range b.y q.y hy
+  have rz := wrap1_range b.z p.z hz; have rqz := wrap1_range b.z q.z hz
+  obtain ⟨si, hsi, hi⟩ := min_image_1d b.x (wrap1 b.x p.x - wrap1 b.x q.x) hx (by linarith) (by linarith)
+    (n.i + fl b.x p.x - fl b.x q.x)
+  obtain ⟨sj, hsj, hj⟩ := min_image_1d b.y (wrap1 b.y p.y - wrap1 b.y q.y) hy (by linarith) (by linarith)
+    (n.j + fl b.y p.y - fl b.y q.y)
+  obtain ⟨sk, hsk, hk⟩ := min_image_1d b.z (wrap1 b.z p.z - wrap1 b.z q.z) hz (by linarith) (by linarith)
+    (n.k + fl b.z p.z - fl b.z q.z)
+  refine ⟨⟨si, sj, sk⟩, mem_shifts si sj sk hsi hsj hsk, ?_⟩
+  have ex : p.x + n.i * b.x - q.x = wrap1 b.x p.x - wrap1 b.x q.x + ((n.i + fl b.x p.x - fl b.x q.x : Int) : Rat) * b.x := by
+    rw [wrap1_eq' _ _ hx, wrap1_eq' _ _ hx]; push_cast; ring
+  have ey : p.y + n.j * b.y - q.y = wrap1 b.y p.y - wrap1 b.y q.y + ((n.j + fl b.y p.y - fl b.y q.y : Int) : Rat) * b.y := by
+    rw [wrap1_eq' _ _ hy, wrap1_eq' _ _ hy]; push_cast; ring
+  have ez : p.z + n.k * b.z - q.z = wrap1 b.z p.z - wrap1 b.z q.z + ((n.k + fl b.z p.z - fl b.z q.z : Int) : Rat) * b.z := by
+    rw [wrap1_eq' _ _ hz, wrap1_eq' _ _ hz]; push_cast; ring
+  simp only [sqDist, shiftV] at h
+  rw [ex, ey, ez] at h
+  simp only [sqDist, shiftV, wrapV]
+  have e1 : wrap1 b.x p.x + si * b.x - wrap1 b.x q.x = wrap1 b.x p.x - wrap1 b.x q.x + si * b.x := by ring
+  have e2 : wrap1 b.y p.y + sj * b.y - wrap1 b.y q.y = wrap1 b.y p.y - wrap1 b.y q.y + sj * b.y := by ring
+  have e3 : wrap1 b.z p.z + sk * b.z - wrap1 b.z q.z = wrap1 b.z p.z - wrap1 b.z q.z + sk * b.z := by ring
+  rw [e1, e2, e3]
+  linarith
+
+
+theorem periodic_replicated (coords : List V3) (cs : Rat) (b : V3) (sel : Option (List Bool)) (c : CL)
+    (h : mk coords cs (some b) sel = some (.ok c)) (q : V3) (r : Rat) (hr : 0 ≤ r) (t : Nat) :
+    t ∈ c.atomsOne q r ↔
+      ∃ t' p', (replicate b (coords.map (wrapV b)))[t']? = some p' ∧ t' % coords.length = t ∧
+        (selMask sel coords.length)[t' % coords.length]? = some true ∧
+        sqDist (wrapV b q) p' ≤ r * r := by
+  obtain ⟨hwf, hcoord, hn, hbox, -, -, -, hsel⟩ := mk_ok coords cs (some b) sel c h
+  rw [atomsOne_eq]
+  simp only [CL.post, CL.prepQ, hbox, List.mem_map]
+  constructor
+  · rintro ⟨t', ht', rfl⟩
+    obtain ⟨p', hp', hs, hd⟩ := (mem_rawAtoms c hwf (wrapV b q) r hr t').mp ht'
+    refine ⟨t', p', by rw [hcoord] at hp'; exact hp', by rw [hn], ?_, hd⟩
+    rw [← hsel, ← hn]
+    simpa [CL.selected] using hs
+  · rintro ⟨t', p', hp', rfl, hs, hd⟩
+    refine ⟨t', (mem_rawAtoms c hwf (wrapV b q) r hr t').mpr ⟨p', by rw [hcoord]; exact hp', ?_, hd⟩, by rw [hn]⟩
+    rw [← hsel, ← hn] at hs
+    simpa [CL.selected] using hs
+
+theorem boxPos_of_mk (coords : List V3) (cs : Rat) (b : V3) (sel : Option (List Bool)) (c : CL)
+    (h : mk coords cs (some b) sel = some (.ok c)) : boxPos b := by
+  have := (mk_ok coords cs (some b) sel c h).2.2.2.2.2.2.1
+  simpa [boxOk, boxPos] using this
+
+/-- entries of the replicated array: position `si * n + t` holds image `shifts[si]` of the moved-inside atom `t` -/
+theorem replicate_getElem? (b : V3) (coords : List V3) (t' : Nat) (p' : V3) :
+    (replicate b (coords.map (wrapV b)))[t']? = some p' ↔
+      ∃ si t s p, t' = si * coords.length + t ∧ shifts[si]? = some s ∧ coords[t]? = some p ∧
+        p' = shiftV b s (wrapV b p) := by
+  unfold replicate
+  rw [getElem?_flatMap_map (shiftV b) (coords.map (wrapV b)) shifts t' p']
+  simp only [List.length_map, List.getElem?_map, Option.map_eq_some_iff]
+  constructor
+  · rintro ⟨si, t, s, pw, ht, hs, ⟨p, hp, rfl⟩, hx⟩
+    exact ⟨si, t, s, p, ht, hs, hp, hx⟩
+  · rintro ⟨si, t, s, p, ht, hs, hp, hx⟩
+    exact ⟨si, t, s, _, ht, hs, ⟨p, hp, rfl⟩, hx⟩
+
+theorem periodic_exact (coords : List V3) (cs : Rat) (b : V3) (sel : Option (List Bool)) (c : CL)
+    (h : mk coords cs (some b) sel = some (.ok c)) (q : V3) (r : Rat) (hr : 0 ≤ r) (t : Nat) :
+    t ∈ c.atomsOne q r ↔
+      ∃ p, coords[t]? = some p ∧ (selMask sel coords.length)[t]? = some true ∧
+        ∃ n : I3, sqDist q (shiftV b n p) ≤ r * r := by
+  have hb := boxPos_of_mk coords cs b sel c h
+  rw [periodic_replicated coords cs b sel c h q r hr t]
+  constructor
+  · rintro ⟨t', p', hp', hmod, hs, hd⟩
+    obtain ⟨si, t0, s, p, ht', -, hp, rfl⟩ := (replicate_getElem? b coords t' p').mp hp'
+    have ht0 : t0 < coords.length := (List.getElem?_eq_some_iff.mp hp).1
+    have hm : t' % coords.length = t0 := by
+      rw [ht', Nat.mul_add_mod_self_right, Nat.mod_eq_of_lt ht0]
+    rw [hm] at hmod hs
+    subst hmod
+    refine ⟨p, hp, hs, latt b p q s, ?_⟩
+    rw [← sqDist_wrap b hb p q s]; exact hd
+  · rintro ⟨p, hp, hs, n, hd⟩
+    obtain ⟨s, hsm, hd'⟩ := image_of_lattice b hb p q n _ hd
+    obtain ⟨si, hsi⟩ := List.mem_iff_getElem?.mp hsm
+    have ht0 : t < coords.length := (List.getElem?_eq_some_iff.mp hp).1
+    have hm : (si * coords.length + t) % coords.length = t := by
+      rw [Nat.mul_add_mod_self_right, Nat.mod_eq_of_lt ht0]
+    refine ⟨si * coords.length + t, shiftV b s (wrapV b p), ?_, hm, by rw [hm]; exact hs, hd'⟩
+    exact (replicate_getElem? b coords _ _).mpr ⟨si, t, s, p, rfl, hsi, hp, rfl⟩
+
+
+/-! ## explicit minimum-image distance (orthorhombic) -/
+
+/-- squared minimum-image separation along one axis: `e = d mod L ∈ [0,L)`, `min(e, L-e)²` -/
+def minImg1 (L d : Rat) : Rat := min (wrap1 L d * wrap1 L d) ((L - wrap1 L d) * (L - wrap1 L d))
+
+/-- squared minimum-image distance in an orthorhombic box -/
+def minImageSq (b q p : V3) : Rat :=
+  minImg1 b.x (p.x - q.x) + minImg1 b.y (p.y - q.y) + minImg1 b.z (p.z - q.z)
+
+theorem minImg1_le (L d : Rat) (hL : 0 < L) (m : Int) : minImg1 L d ≤ (d + m * L) * (d + m * L) := by
+  unfold minImg1
+  have hr := wrap1_range L d hL
+  have he : d + m * L = wrap1 L d + ((m + fl L d : Int) : Rat) * L := by
+    rw [wrap1_eq' L d hL]; push_cast; ring
+  rw [he]
+  by_cases hk : 0 ≤ m + fl L d
+  · have : (0 : Rat) ≤ ((m + fl L d : Int) : Rat) := by exact_mod_cast hk
+    apply min_le_of_left_le
+    nlinarith [mul_nonneg this hL.le]
+  · have hk' : m + fl L d ≤ -1 := by omega
+    have : ((m + fl L d : Int) : Rat) ≤ -1 := by exact_mod_cast hk'
+    apply min_le_of_right_le
+    nlinarith [mul_le_mul_of_nonneg_right this hL.le]
+
+theorem minImg1_attained (L d : Rat) (hL : 0 < L) : ∃ m : Int, (d + m * L) * (d + m * L) = minImg1 L d := by
+  unfold minImg1
+  by_cases hc : wrap1 L d * wrap1 L d ≤ (L - wrap1 L d) * (L - wrap1 L d)
+  · refine ⟨- fl L d, ?_⟩
+    rw [min_eq_left hc, wrap1_eq' L d hL]; push_cast; ring
+  · refine ⟨- fl L d - 1, ?_⟩
+    rw [min_eq_right (le_of_lt (not_le.mp hc)), wrap1_eq' L d hL]; push_cast; ring
+
+theorem lattice_iff_minImage (b : V3) (hb : boxPos b) (q p : V3) (r2 : Rat) :
+    (∃ n : I3, sqDist q (shiftV b n p) ≤ r2) ↔ minImageSq b q p ≤ r2 := by
+  obtain ⟨hx, hy, hz⟩ := hb
+  constructor
+  · rintro ⟨n, h⟩
+    simp only [sqDist, shiftV] at h
+    have h1 := minImg1_le b.x (p.x - q.x) hx n.i
+    have h2 := minImg1_le b.y (p.y - q.y) hy n.j
+    have h3 := minImg1_le b.z (p.z - q.z) hz n.k
+    unfold minImageSq
+    have e1 : p.x + n.i * b.x - q.x = p.x - q.x + n.i * b.x := by ring
+    have e2 : p.y + n.j * b.y - q.y = p.y - q.y + n.j * b.y := by ring
+    have e3 : p.z + n.k * b.z - q.z = p.z - q.z + n.k * b.z := by ring
+    rw [e1, e2, e3] at h
+    linarith
+  · intro h
+    obtain ⟨i, hi⟩ := minImg1_attained b.x (p.x - q.x) hx
+    obtain ⟨j, hj⟩ := minImg1_attained b.y (p.y - q.y) hy
+    obtain ⟨k, hk⟩ := minImg1_attained b.z (p.z - q.z) hz
+    refine ⟨⟨i, j, k⟩, ?_⟩
+    simp only [sqDist, shiftV]
+    have e1 : p.x + i * b.x - q.x = p.x - q.x + i * b.x := by ring
+    have e2 : p.y + j * b.y - q.y = p.y - q.y + j * b.y := by ring
+    have e3 : p.z + k * b.z - q.z = p.z - q.z + k * b.z := by ring
+    rw [e1, e2, e3, hi, hj, hk]
+    exact h
+
+
+/-! ## periodic cell queries and adjacency -/
+
+theorem abs_le_of_sq_le (x y ρ : Rat) (h : x * x ≤ y * y) (h1 : y ≤ ρ) (h2 : -y ≤ ρ) : x ≤ ρ ∧ -x ≤ ρ := by
+  have hρ : 0 ≤ ρ := by linarith
+  have hy : y * y ≤ ρ * ρ := by nlinarith [mul_nonneg (sub_nonneg.mpr h1) (by linarith : 0 ≤ ρ + y)]
+  constructor
+  · by_contra hc; have hc := not_le.mp hc; nlinarith
+  · by_contra hc; have hc := not_le.mp hc; nlinarith
+
+theorem near1_image (L d : Rat) (hL : 0 < L) (h1 : -L < d) (h2 : d < L) (m : Int) (ρ : Rat)
+    (ha : d + m * L ≤ ρ) (hb : -(d + m * L) ≤ ρ) :
+    ∃ s : Int, (s = -1 ∨ s = 0 ∨ s = 1) ∧ d + s * L ≤ ρ ∧ -(d + s * L) ≤ ρ := by
+  obtain ⟨s, hs, hsq⟩ := min_image_1d L d hL h1 h2 m
+  exact ⟨s, hs, abs_le_of_sq_le _ _ ρ hsq ha hb⟩
+
+theorem image_of_lattice_near (b : V3) (hb : boxPos b) (p q : V3) (n : I3) (ρ : Rat)
+    (h : near q (shiftV b n p) ρ) :
+    ∃ s ∈ shifts, near (wrapV b q) (shiftV b s (wrapV b p)) ρ := by
+  obtain ⟨hx, hy, hz⟩ := hb
+  have rx := wrap1_range b.x p.x hx; have rqx := wrap1_range b.x q.x hx
+  have ry := wrap1_range b.y p.y hy; have rqy := wrap1_range b.y q.y hy
+  have rz := wrap1_range b.z p.z hz; have rqz := wrap1_range b.z q.z hz
+  obtain ⟨⟨a1, a2⟩, ⟨b1, b2⟩, ⟨c1, c2⟩⟩ := h
+  simp only [shiftV] at a1 a2 b1 b2 c1 c2
+  have ex : p.x + n.i * b.x - q.x = wrap1 b.x p.x - wrap1 b.x q.x + ((n.i + fl b.x p.x - fl b.x q.x : Int) : Rat) * b.x := by
+    rw [wrap1_eq' _ _ hx, wrap1_eq' _ _ hx]; push_cast; ring
+  have ey : p.y + n.j * b.y - q.y = wrap1 b.y p.y - wrap1 b.y q.y + ((n.j + fl b.y p.y - fl b.y q.y : Int) : Rat) * b.y := by
+    rw [wrap1_eq' _ _ hy, wrap1_eq' _ _ hy]; push_cast; ring
+  have ez : p.z + n.k * b.z - q.z = wrap1 b.z p.z - wrap1 b.z q.z + ((n.k + fl b.z p.z - fl b.z q.z : Int) : Rat) * b.z := by
+    rw [wrap1_eq' _ _ hz, wrap1_eq' _ _ hz]; push_cast; ring
+  obtain ⟨si, hsi, i1, i2⟩ := near1_image b.x (wrap1 b.x p.x - wrap1 b.x q.x) hx (by linarith) (by linarith)
+    (n.i + fl b.x p.x - fl b.x q.x) ρ (by rw [← ex]; exact a1) (by rw [← ex]; linarith)
+  obtain ⟨sj, hsj, j1, j2⟩ := near1_image b.y (wrap1 b.y p.y - wrap1 b.y q.y) hy (by linarith) (by linarith)
+    (n.j + fl b.y p.y - fl b.y q.y) ρ (by rw [← ey]; exact b1) (by rw [← ey]; linarith)
+  obtain ⟨sk, hsk, k1, k2⟩ := near1_image b.z (wrap1 b.z p.z - wrap1 b.z q.z) hz (by linarith) (by linarith)
+    (n.k + fl b.z p.z - fl b.z q.z) ρ (by rw [← ez]; exact c1) (by rw [← ez]; linarith)
+  refine ⟨⟨si, sj, sk⟩, mem_shifts si sj sk hsi hsj hsk, ?_⟩
+  simp only [near, shiftV, wrapV]
+  refine ⟨⟨by linarith, by linarith⟩, ⟨by linarith, by linarith⟩, ⟨by linarith, by linarith⟩⟩
+
+theorem periodic_cells_superset (coords : List V3) (cs : Rat) (b : V3) (sel : Option (List Bool)) (c : CL)
+    (h : mk coords cs (some b) sel = some (.ok c)) (q : V3) (R : Int) (t : Nat) (p : V3)
+    (hp : coords[t]? = some p) (hs : (selMask sel coords.length)[t]? = some true)
+    (n : I3) (hn : near q (shiftV b n p) (R * cs)) : t ∈ c.cellsOne q R := by
+  have hb := boxPos_of_mk coords cs b sel c h
+  obtain ⟨hwf, hcoord, hn', hbox, hcs, -, -, hsel⟩ := mk_ok coords cs (some b) sel c h
+  obtain ⟨s, hsm, hnear⟩ := image_of_lattice_near b hb p q n _ hn
+  obtain ⟨si, hsi⟩ := List.mem_iff_getElem?.mp hsm
+  have ht0 : t < coords.length := (List.getElem?_eq_some_iff.mp hp).1
+  have hm : (si * coords.length + t) % coords.length = t := by
+    rw [Nat.mul_add_mod_self_right, Nat.mod_eq_of_lt ht0]
+  show t ∈ c.post ((c.scan (c.prepQ q) R).map (·.2))
+  simp only [CL.post, CL.prepQ, hbox]
+  refine List.mem_map.mpr ⟨si * coords.length + t, ?_, by rw [hn']; exact hm⟩
+  apply mem_rawCells c hwf (wrapV b q) R _ (shiftV b s (wrapV b p))
+  · rw [hcoord]; exact (replicate_getElem? b coords _ _).mpr ⟨si, t, s, p, rfl, hsi, hp, rfl⟩
+  · have : c.selected (si * coords.length + t) = (c.sel[t]? == some true) := by
+      simp [CL.selected, hn', hm]
+    rw [this, hsel, hs]; rfl
+  · rw [hcs]; exact hnear
+
+theorem selMask_length (coords : List V3) (sel : Option (List Bool)) (h : selError coords sel = none) :
+    (selMask sel coords.length).length = coords.length := by
+  unfold selError at h
+  cases sel with
+  | none => simp [selMask]
+  | some s =>
+    simp only [selMask]
+    by_contra hc
+    simp [hc] at h
+
+theorem adjacency_rows (c : CL) (thr : Rat) (rows : List (List Nat))
+    (hlen : (c.coord.take c.n).length = c.sel.length) (ha : c.adjacency thr = some (.ok rows)) :
+    0 ≤ thr ∧ rows = ((c.coord.take c.n).zip c.sel).map
+      (fun ps => if ps.2 then c.atomsOne ps.1 thr else []) := by
+  unfold CL.adjacency CL.adjacencyWith at ha
+  split at ha
+  · simp at ha
+  · rename_i hthr
+    refine ⟨not_lt.mp hthr, ?_⟩
+    simp only at ha
+    split at ha
+    · rename_i rows0 hb
+      simp only [Option.some.injEq, Except.ok.injEq] at ha
+      have hrows0 := atomsBatch_rows c _ _ rows0 hb
+      simp only [Rad.expand] at hrows0
+      rw [zip_replicate_map (fun q r => c.atomsOne q r)] at hrows0
+      rw [hrows0, scatter_spec (fun q => c.atomsOne q thr) _ _ hlen] at ha
+      exact ha.symm
+    · rename_i hne
+      cases hr : c.atomsBatchWith CL.scan _ (Rad.scalar thr) with
+      | none => rw [hr] at ha; simp at ha
+      | some e =>
+        cases e with
+        | error e => rw [hr] at ha; simp at ha
+        | ok r0 => exact absurd hr (hne r0)
+
+theorem shiftV_zero (b p : V3) : shiftV b ⟨0, 0, 0⟩ p = p := by
+  cases p; simp [shiftV]
+
+theorem take_replicate (b : V3) (ps : List V3) : (replicate b ps).take ps.length = ps := by
+  unfold replicate shifts
+  rw [List.flatMap_cons]
+  have : (ps.map (shiftV b ⟨0, 0, 0⟩)) = ps := by
+    have hid : shiftV b ⟨0, 0, 0⟩ = id := funext (shiftV_zero b)
+    rw [hid, List.map_id]
+  rw [this, List.take_left']
+  rfl
+
+theorem exists_lattice_wrap (b : V3) (hb : boxPos b) (q p : V3) (r2 : Rat) :
+    (∃ n : I3, sqDist (wrapV b q) (shiftV b n p) ≤ r2) ↔ (∃ n : I3, sqDist q (shiftV b n p) ≤ r2) := by
+  obtain ⟨hx, hy, hz⟩ := hb
+  have key : ∀ n : I3, sqDist (wrapV b q) (shiftV b n p) =
+      sqDist q (shiftV b ⟨n.i + fl b.x q.x, n.j + fl b.y q.y, n.k + fl b.z q.z⟩ p) := by
+    intro n
+    simp only [sqDist, wrapV, shiftV, wrap1_eq' _ _ hx, wrap1_eq' _ _ hy, wrap1_eq' _ _ hz]
+    push_cast; ring
+  constructor
+  · rintro ⟨n, h⟩; exact ⟨_, by rw [← key]; exact h⟩
+  · rintro ⟨n, h⟩
+    refine ⟨⟨n.i - fl b.x q.x, n.j - fl b.y q.y, n.k - fl b.z q.z⟩, ?_⟩
+    rw [key]
+    simpa using h
+
+theorem sqDist_shift_symm (b a c : V3) (n : I3) :
+    sqDist a (shiftV b n c) = sqDist c (shiftV b ⟨-n.i, -n.j, -n.k⟩ a) := by
+  simp only [sqDist, shiftV]; push_cast; ring
+
+
 end BiotiteModel.C14
